@@ -26,7 +26,9 @@ RULE = ('operation scripts over several hll_sketch registers: lg_k 4..12 (thorou
         'the private coupon_update at lg_k 4..7 up to 40*k, built to cover every slot repeatedly (cur-min shifts) with values >= cur_min+15 mixed in '
         '(aux exceptions, exceptions that stop being exceptions after a shift); (a2) HllUtil::coupon on raw hash states with 0..64 leading zeros; (c) the same multiset fed shuffled / with duplicates to separate '
         'registers of the same and of different types; (d) copy-as conversions from every mode and type to every type, and further updates after '
-        'conversion; reset; non-trivial = the case crossed a promotion, a set growth, a cur-min shift, held an aux exception, converted or shuffled')
+        'conversion; reset; (e) deterministic cases with several coupons on one 26-bit address (values in increasing / decreasing / mixed order) and on one slot, '
+        'in LIST and SET mode and across every promotion; family hllbig (implementation only, no model run): lg_k 17/20/21 in SET mode with 10k/50k/90k items and HLL mode at lg_k 17, '
+        'the three types side by side: lb <= estimate <= ub for 1..3 std dev, nested bounds, bounds >= distinct coupon count, equal estimates across types; non-trivial = the case crossed a promotion, a set growth, a cur-min shift, held an aux exception, converted or shuffled')
 TRUSTED = ['MurmurHash3 model coq/Murmur3.v and the item canonicalisation in HllDefs.item_bytes (both exercised against the implementation by every real-item update of this check)',
            'kxq0/kxq1 are modelled as exact integers (units 2^-31, 2^-63); the harness converts the doubles exactly and flags any non-integral value',
            'hipAccum and all estimators/bounds are floating point: not modelled, only checked by the oracle on the implementation outputs']
@@ -307,6 +309,39 @@ def gen(rng, tier):
         if n >= prom:
             tags.append('promote')
         add(ops, tags, 'ord')
+
+    # ---- (e) coupons sharing the full 26-bit address (different values), and coupons sharing only the slot bits ----
+    # deterministic structure (only the addresses come from rng): LIST mode, SET mode, across list->set, list->HLL, set->HLL;
+    # the values of one address arrive in increasing (register 0), decreasing (1) and mixed (2) order, one target type each
+    for lgk in (5, 7, 8, 10):
+        prom = max(promo_points(lgk))
+        addrs = []
+        while len(addrs) < prom + 6:
+            a = rng.randrange(1 << 26)
+            if a not in addrs: addrs.append(a)
+        def group(a, vals): return [coupon(a, v) for v in vals]
+        orders = [lambda v: sorted(v), lambda v: sorted(v, reverse=True), lambda v: v[1::2] + v[0::2][::-1]]
+        ops = [[1, r, lgk, r, 0] for r in range(3)]
+        def feed(groups):
+            for r in range(3):
+                seq = []
+                for (a, vals) in groups: seq += group(a, orders[r](list(vals)))
+                if r == 2: seq = seq[::2] + seq[1::2]
+                ops.append([3, 1, r] + seq)
+            for r in range(3): ops.append([6, r])
+        feed([(addrs[0], [1, 2])])                                   # LIST: two coupons, same address
+        feed([(addrs[0], [3]), (addrs[1], [5, 4])])                  # LIST: 5 distinct coupons on 2 addresses
+        feed([(addrs[1], [9]), (addrs[2], [1])])                     # 7 distinct: list full - 1
+        feed([(addrs[2], [2])])                                      # 8th distinct coupon: promotion (HLL below lg_k 8, else SET)
+        feed([(addrs[3], [6, 2, 4]), ((addrs[3] & ~((1 << lgk) - 1) & M26) ^ (1 << 25) | (addrs[3] & ((1 << lgk) - 1)), [7, 1])])   # same slot, other address
+        if lgk >= 8:
+            k = 0
+            while 11 + 2 * k + 2 <= prom - 2:                         # SET mode: pairs on one address, up to just below the promotion
+                k += 1
+            feed([(addrs[4 + j], [2 + j % 5, 1]) for j in range(k)])
+            feed([(addrs[4 + k], [3, 8]), (addrs[5 + k], [1, 2, 3])])  # crosses the SET -> HLL promotion with same-address coupons
+        feed([(addrs[0], [11, 12]), (addrs[2], [40])])               # HLL mode: larger values on old addresses
+        add(ops, ['same-address', 'promote', 'types'], 'addr')
     return cases
 
 # ---------------------------------------------------------------------------
@@ -410,7 +445,71 @@ def oracle(case, irecs, mrecs):
                      (q['est'], f64(prev[0]), prev[1], TY.get(prev[2], '?')))
     return fails
 
-FAMILIES = [dict(name='hll', harness='drv_hll.cpp', extract='Extract_hll.v', model='model_hll', gen=gen, oracle=oracle)]
+# ---------------------------------------------------------------------------
+# implementation-only family: large sketches (lg_k 17..21) that the list-based model is too slow for; ordering predicates only
+# ---------------------------------------------------------------------------
+def gen_big(rng, tier):
+    cases = []
+    for (cid, lgk, n, mode) in [('big17set', 17, 10000, 1), ('big20set', 20, 50000, 1), ('big21set', 21, 90000, 1), ('big17hll', 17, 20000, 2)]:
+        ops = []
+        start = 1000003 * lgk; stride = 2**33 + 1
+        for ty in range(3):
+            ops.append([1, ty, lgk, ty, 0])
+        steps = [n // 4, n // 4, n // 2] if tier == 'quick' else [n // 8] * 8
+        x = start
+        for st in steps:
+            ops.append([4, 3, 0, 1, 2, x, st, stride]); x += st * stride
+            for ty in range(3):
+                ops.append([6, ty])
+        cases.append(dict(id=cid, ops=ops, tags=['big', 'set' if mode == 1 else 'hll'], want_mode=mode, n=n))
+    return cases
+
+def oracle_big(case, irecs, mrecs):
+    fails = []
+    last = {}
+    for i, op in enumerate(case['ops']):
+        if i >= len(irecs) or op[0] != 6: continue
+        R = irecs[i]['R']; F = irecs[i].get('F')
+        def fail(sig, what):
+            fails.append(dict(sig=sig, what=what + ' (lg_k %d, %s, mode %d)' % (R[0] if R else -1, TY.get(R[1] if len(R) > 1 else -1, '?'), R[2] if len(R) > 2 else -1), op_index=i))
+        if R == [-1] or len(R) < 6 or not F or len(F) < 8:
+            fail('big_query_refused', 'query of a large sketch failed'); continue
+        mode = R[2]
+        est = f64(F[0]); comp = f64(F[1]); lb = [f64(x) for x in F[2:5]]; ub = [f64(x) for x in F[5:8]]
+        for d in range(3):
+            if not (lb[d] <= est <= ub[d]):
+                fail('bounds_order', 'lb(%d) %r <= estimate %r <= ub(%d) %r violated' % (d + 1, lb[d], est, d + 1, ub[d])); break
+        if not (lb[2] <= lb[1] <= lb[0] and ub[0] <= ub[1] <= ub[2]):
+            fail('bounds_nesting', 'bounds for 1..3 standard deviations are not nested: lb %r ub %r' % (lb, ub))
+        if mode in (0, 1):
+            cnt = R[5]
+            if est < cnt:
+                fail('estimate_below_coupon_count', 'estimate %r is below the number of distinct coupons %d' % (est, cnt))
+            if any(b < cnt for b in ub):
+                fail('upper_bound_below_coupon_count', 'an upper bound %r is below the number of distinct coupons %d' % (ub, cnt))
+        last.setdefault(op[1], []).append((i, R, F))
+    # the three target types were fed the same items: same mode, same coupons, same estimates
+    seqs = [last.get(r, []) for r in range(3)]
+    for j in range(min(len(q) for q in seqs) if seqs and all(seqs) else 0):
+        (i0, R0, F0) = seqs[0][j]
+        for r in (1, 2):
+            (i1, R1, F1) = seqs[r][j]
+            if R0[2] != R1[2]:
+                fails.append(dict(sig='mode_differs_across_types', what='same items: mode %d for HLL_4, %d for %s' % (R0[2], R1[2], TY[r]), op_index=i1)); continue
+            if R0[2] in (0, 1):
+                if R0[5:] != R1[5:]:
+                    fails.append(dict(sig='coupons_differ_across_types', what='same items: different coupon sets for HLL_4 and %s' % TY[r], op_index=i1))
+                if F0[:8] != F1[:8]:
+                    fails.append(dict(sig='estimates_differ_across_types', what='coupon mode, same items: estimates/bounds differ between HLL_4 and %s' % TY[r], op_index=i1))
+            else:
+                if F0[0] != F1[0] or F0[1] != F1[1]:
+                    fails.append(dict(sig='estimates_differ_across_types', what='HLL mode, same item sequence: HIP/composite estimates differ between HLL_4 and %s' % TY[r], op_index=i1))
+        if case.get('want_mode') is not None and j == len(seqs[0]) - 1 and R0[2] != case['want_mode']:
+            fails.append(dict(sig='big_case_mode', what='the case was built to end in mode %d, the sketch is in mode %d' % (case['want_mode'], R0[2]), op_index=i0))
+    return fails
+
+FAMILIES = [dict(name='hll', harness='drv_hll.cpp', extract='Extract_hll.v', model='model_hll', gen=gen, oracle=oracle),
+            dict(name='hllbig', harness='drv_hll.cpp', extract=None, model=None, gen=gen_big, oracle=oracle_big)]
 
 MANIFEST = dict(
     level_text=('PROVED in Coq for ALL inputs (every lg_k 4..21, HLL_4/HLL_6/HLL_8, start_full_size or not, every sequence of 32-bit coupons; '
